@@ -75,6 +75,8 @@ pub fn run(path: &str) -> anyhow::Result<Value> {
             let tree = PlainMerkleTree::new(&data);
             let root = if c["rootMode"] == "tree" {
                 PlainMerkleTree::new(&seq_of(&c["rootOf"])).get_root()
+            } else if c["rootMode"] == "prefix32" {
+                PlainMerkleTree::derive_root(&leaf, j, &proof[..32].to_vec())
             } else {
                 PlainMerkleTree::derive_root(&leaf, j, &proof)
             };
